@@ -146,10 +146,14 @@ Proof.
   assert (In f (errors (run empty ops))) by (apply filter_In; auto). rewrite He in H. destruct H.
 Qed.
 
-Lemma check_C15_iff c : check_C15 c = true <-> (ok_trace empty (c_ops c) = true -> c_check_failed c = false).
+Lemma check_C15_iff c : check_C15 c = true <-> c_check_failed c = false.
+Proof. unfold check_C15. destruct (c_check_failed c); cbn; split; auto; discriminate. Qed.
+
+(* the model agrees with a clean verdict whenever the recorded history follows the discipline *)
+Lemma model_predicts_clean c :
+  ok_trace empty (c_ops c) = true -> errors (run empty (c_ops c)) = [].
 Proof.
-  unfold check_C15. destruct (ok_trace empty (c_ops c)), (c_check_failed c); cbn; split; auto; try discriminate.
-  intros H; specialize (H eq_refl); discriminate.
+  intros H. pose proof (produced_is_clean (c_ops c) (length (c_ops c)) H) as He. rewrite firstn_all in He. exact He.
 Qed.
 
 (* non-vacuity: a backup, a second backup, a prune-like rewrite (new index, old indexes removed, pack
@@ -168,5 +172,7 @@ Example c15_nonvacuous :
   /\ ok_trace empty [SavePack 1 [10]; SaveIdx 100 [(1, [10])]; SaveSnap 200 [10]; RmPack 1] = false
   /\ errors (run empty [SavePack 1 [10]; SaveIdx 100 [(1, [10])]; SaveSnap 200 [10]; RmPack 1]) = [FMissing 1]
   /\ check_case (mk ex_ops [5; 4] [102] [201] false) = 0%nat
-  /\ check_case (mk ex_ops [5; 4] [102] [201] true) = 2%nat.
+  /\ check_case (mk ex_ops [5; 4] [102] [201] true) = 2%nat
+  /\ check_case (mk [SavePack 1 [10]; SaveIdx 100 [(1, [10])]; SaveSnap 200 [10]; RmPack 1] [] [100] [200] true) = 2%nat
+  /\ check_case (mk [SavePack 1 [10]; SaveIdx 100 [(1, [10])]; SaveSnap 200 [10]; RmPack 1] [] [100] [200] false) = 1%nat.
 Proof. vm_compute. repeat split. Qed.
